@@ -147,7 +147,10 @@ func (c *Ctx) role(name string) *ssa.Function {
 	case "sam.parseTags":
 		return c.calleeBySig(c.role("sam.parseLine"), "([]string)(map[string]any,error)", 0)
 	case "sam.splitTag":
-		return c.calleeBySig(c.role("sam.parseTags"), "(string)([3]string,error)", 0)
+		if f := c.calleeBySig(c.role("sam.parseTags"), "(string)([3]string,error)", 0); f != nil {
+			return f
+		}
+		return c.calleeBySig(c.role("sam.parseTags"), "(string)([]string,error)", 0) // the three parts as a slice
 	case "sam.tagsToText":
 		return c.calleeBySig(c.fn("formats/sam", "(*SAM).Write"), "(map[string]interface{})([]string)", 0)
 	case "sam.tagToText":
